@@ -8,7 +8,7 @@
 #[derive(PartialEq, Eq, Clone, Copy, Structural)]
 pub enum CBORType { UnsignedInteger, NegativeInteger, Bytes, Text, Array, Map, Tag, Special }
 /// cbor_event::Error, as far as the library constructs it (the other variants only travel)
-pub enum CborError { Expected(CBORType, CBORType), CustomError(String), IoError(IoError), IndefiniteLenNotSupported(CBORType), WrongLen(u64, cbor_event::Len, &'static str), Other }
+pub enum CborError { Expected(CBORType, CBORType), CustomError(String), IoError(IoError), IndefiniteLenNotSupported(CBORType), WrongLen(u64, cbor_event::Len, &'static str), TrailingData, Other }
 impl core::fmt::Debug for CborError { #[verifier::external_body] fn fmt(&self, f: &mut core::fmt::Formatter<'_>) -> core::fmt::Result { unimplemented!() } }
 #[derive(PartialEq, Eq, Structural)]
 pub enum CBORSpecial { Bool(bool), Null, Undefined, Break }
